@@ -673,6 +673,14 @@ def owned_field_overwrites(eng, fn):
             if i.op == "call" and i.get("callee") in ("free", "realloc"):
                 L = loaded_loc(fa, i.ops[0])
                 if L is not None: st.add(L)
+            elif i.op == "call" and i.get("callee") in eng.pts.summ and any(r[0] == "arg" and len(r) > 2 and r[2] == 1 for r in eng.pts.summ[i["callee"]].frees):
+                # a helper that frees a block held in a field of the object it is given (e.g. "release the container"): every
+                # targeted field of that object counts as released
+                for r in eng.pts.summ[i["callee"]].frees:
+                    if r[0] == "arg" and len(r) > 2 and r[2] == 1 and r[1] < i["nargs"]:
+                        root, off = fa.fi.ptr(i.ops[r[1]])
+                        for (st_i, L2) in targets:
+                            if L2[0] == root: st.add(L2)
             elif i.op == "store" and is_ptr(i.ops[0]["t"]):
                 root, off = fa.fi.ptr(i.ops[1])
                 if off.is_const(): st.discard((root, off.c))
